@@ -27,6 +27,18 @@ type Config struct {
 	ErrResult bool
 	// MethodsAsIdent: treat `x.M()` listed here as `x` (e.g. addr.Bytes()).
 	NullaryMethodsIdentity map[string]bool
+	// RecvType: when set, a method's receiver becomes the first parameter with this Lean type.
+	RecvType string
+	// OptionParams: pointer parameters / receivers rendered as `Option T`. The only thing that may be
+	// done with them before a nil check is the nil check itself: `if p == nil { return e }` (or a
+	// disjunction of such checks) becomes `match p with | none => e | some p => rest`.
+	OptionParams map[string]bool
+	// LastResultOnly: `return a, err` in a function whose last result is an error is rendered from
+	// `err` alone (the other results are not modelled).
+	LastResultOnly bool
+	// Methods maps a method NAME to a renderer taking the rendered receiver and arguments
+	// (used for calls `recv.M(args)` whose full source text is not in Calls).
+	Methods map[string]func(recv string, args []string) (string, error)
 }
 
 type File struct {
@@ -345,6 +357,9 @@ func (t *Translator) leanType(goType string) (string, error) {
 // Func renders fd as a Lean `def <leanName> (params) : <ret> := body`.
 func (t *Translator) Func(fd *ast.FuncDecl, leanName string) (string, error) {
 	var params []string
+	if t.Cfg.RecvType != "" && fd.Recv != nil && len(fd.Recv.List) == 1 && len(fd.Recv.List[0].Names) == 1 {
+		params = append(params, fmt.Sprintf("(%s : %s)", leanIdent(fd.Recv.List[0].Names[0].Name), t.Cfg.RecvType))
+	}
 	for _, p := range fd.Type.Params.List {
 		lt, err := t.leanType(typeText(p.Type))
 		if err != nil {
@@ -369,6 +384,12 @@ func (t *Translator) Func(fd *ast.FuncDecl, leanName string) (string, error) {
 	return fmt.Sprintf("def %s %s : %s :=\n%s\n", leanName, strings.Join(params, " "), lrt, body), nil
 }
 
+// Stmts renders a statement list that ends in a return on every path (a function body or a tail of
+// one) as a Lean term of the result type named by rt ("lib.ErrorI"/"error" => Option String).
+func (t *Translator) Stmts(list []ast.Stmt, rt string, ind string) (string, error) {
+	return t.stmts(list, rt, ind)
+}
+
 func leanIdent(s string) string {
 	switch s {
 	case "end", "from", "at", "fun", "open", "in", "then", "else", "do", "let", "have", "show", "by", "where", "with", "match", "if":
@@ -388,10 +409,10 @@ func (t *Translator) stmts(list []ast.Stmt, rt string, ind string) (string, erro
 	}
 	switch v := s.(type) {
 	case *ast.ReturnStmt:
-		if len(v.Results) != 1 {
+		if len(v.Results) != 1 && !(t.Cfg.LastResultOnly && len(v.Results) > 1) {
 			return "", fmt.Errorf("return with %d results", len(v.Results))
 		}
-		e, err := t.result(v.Results[0], rt)
+		e, err := t.result(v.Results[len(v.Results)-1], rt)
 		if err != nil {
 			return "", err
 		}
@@ -399,6 +420,23 @@ func (t *Translator) stmts(list []ast.Stmt, rt string, ind string) (string, erro
 	case *ast.IfStmt:
 		if v.Init != nil {
 			return "", fmt.Errorf("if with init statement")
+		}
+		if names := t.nilChecks(v.Cond); len(names) > 0 && v.Else == nil && endsInReturn(v.Body.List) {
+			// if p == nil || q == nil { return e }; rest   ==>   match p with | none => e | some p => match q with ...
+			thenS, err := t.stmts(v.Body.List, rt, ind+"    ")
+			if err != nil {
+				return "", err
+			}
+			var b strings.Builder
+			for i, n := range names {
+				pad := ind + strings.Repeat("  ", i)
+				fmt.Fprintf(&b, "%smatch %s with\n%s| none =>\n%s\n%s| some %s =>\n", pad, n, pad, reindent(thenS, pad+"    "), pad, n)
+			}
+			restS, err := t.stmts(rest, rt, ind+strings.Repeat("  ", len(names)))
+			if err != nil {
+				return "", err
+			}
+			return b.String() + restS, nil
 		}
 		c, err := t.Expr(v.Cond)
 		if err != nil {
@@ -457,6 +495,47 @@ func (t *Translator) stmts(list []ast.Stmt, rt string, ind string) (string, erro
 		return fmt.Sprintf("%slet %s := %s\n%s", ind, name, r, tail), nil
 	}
 	return "", fmt.Errorf("statement outside subset: %s", StmtText(s))
+}
+
+// nilChecks returns the option parameters tested by a condition of the form `p == nil [|| q == nil ...]`
+// (nil when the condition has any other shape).
+func (t *Translator) nilChecks(e ast.Expr) []string {
+	switch v := e.(type) {
+	case *ast.ParenExpr:
+		return t.nilChecks(v.X)
+	case *ast.BinaryExpr:
+		if v.Op == token.LOR {
+			l, r := t.nilChecks(v.X), t.nilChecks(v.Y)
+			if l == nil || r == nil {
+				return nil
+			}
+			return append(l, r...)
+		}
+		if v.Op == token.EQL {
+			id, ok := v.X.(*ast.Ident)
+			nl, ok2 := v.Y.(*ast.Ident)
+			if ok && ok2 && nl.Name == "nil" && t.Cfg.OptionParams[id.Name] {
+				return []string{leanIdent(id.Name)}
+			}
+		}
+	}
+	return nil
+}
+
+func endsInReturn(list []ast.Stmt) bool {
+	if len(list) == 0 {
+		return false
+	}
+	_, ok := list[len(list)-1].(*ast.ReturnStmt)
+	return ok
+}
+
+func reindent(s, ind string) string {
+	lines := strings.Split(s, "\n")
+	for i, l := range lines {
+		lines[i] = ind + strings.TrimLeft(l, " ")
+	}
+	return strings.Join(lines, "\n")
 }
 
 // nonReturningTail: if the then-branch does not end in a return, control falls through to `rest`.
@@ -578,6 +657,15 @@ func (t *Translator) Expr(e ast.Expr) (string, error) {
 		}
 		if r, ok := t.Cfg.Calls[fn]; ok {
 			return r(args)
+		}
+		if sel, ok := v.Fun.(*ast.SelectorExpr); ok {
+			if r, ok := t.Cfg.Methods[sel.Sel.Name]; ok {
+				recv, err := t.Expr(sel.X)
+				if err != nil {
+					return "", err
+				}
+				return r(recv, args)
+			}
 		}
 		return "", fmt.Errorf("call to %s outside whitelist", fn)
 	case *ast.CompositeLit:
